@@ -29,7 +29,7 @@ ASSUMPTIONS = ["non-negative quadrant (library-wide precondition; -1 is the 'hal
                "distance tolerance set as a die of that size would set it (1e-11*scale)"]
 BOUNDS = {'quick': '5x5-point grid, 8 families, all ordered pairs (10 000 per family), cuts/grids/points per rectangle',
           'thorough': 'same plus 6x6-point grid (225 rectangles, 50 625 ordered pairs) for all 8 families and 7x7-point grid '
-                      '(441 rectangles, 194 481 ordered pairs) for 4 families'}
+                      '(441 rectangles, 194 481 ordered pairs) for 4 families and 8x8-point grid (784 rectangles, 614 656 ordered pairs) for 2 families'}
 
 N = 4  # cells per axis -> 5 points
 
@@ -60,6 +60,10 @@ def shards(tier):
             for part in range(12):
                 out.append(dict(kind='pairs', fam=fam, n=6, part=part, parts=12))
             out.append(dict(kind='single', fam=fam, n=6))
+        for fam in ('HALF', 'DEC1'):
+            for part in range(32):
+                out.append(dict(kind='pairs', fam=fam, n=7, part=part, parts=32))
+            out.append(dict(kind='single', fam=fam, n=7))
     return out
 
 
